@@ -80,6 +80,7 @@ Definition fapply (fs : files) (e : event) : files :=
       aupdate f (fun pf => match pf with
                            | PV s ix eof bl => PV s ((slot, (i, o, l)) :: ix) eof bl
                            | other => other end) fs
+  | EFileDel f => aremove f fs
   | _ => fs
   end.
 Definition fapplys (fs : files) (es : list event) : files := fold_left fapply es fs.
@@ -103,7 +104,7 @@ Proof. unfold apply_events. apply fold_left_app. Qed.
 (** events that do not touch primary files *)
 Definition wal_only (e : event) : bool :=
   match e with
-  | EFileNew _ | EFileHdr _ _ | ECreate _ _ _ | EPW _ _ _ _ | EVData _ _ _ _ | EVIndex _ _ _ _ _ => false
+  | EFileNew _ | EFileHdr _ _ | ECreate _ _ _ | EPW _ _ _ _ | EVData _ _ _ _ | EVIndex _ _ _ _ _ | EFileDel _ => false
   | _ => true
   end.
 
